@@ -365,7 +365,7 @@ def closest_point2d_on_arc2d(point, arc):
     else:
         a = Vector2D(1, 0).angle_counterclockwise(v)
         if (not arc.is_inverted and arc.a1 < a < arc.a2) or \
-                (arc.is_inverted and arc.a1 > a > arc.a2):
+                (arc.is_inverted and (a > arc.a1 or a < arc.a2)):
             return Point2D(arc.c.x + v.x, arc.c.y + v.y)
         else:
             if arc.p1.distance_to_point(point) <= arc.p2.distance_to_point(point):
